@@ -61,10 +61,12 @@ Qed.
 (* ---------------------------------------------------------------- identifiers and numbers *)
 Lemma ids_len_data z n : zarr_wf z -> ids_len z = Ok n -> length (if (n =? 0)%nat then [] else z_data z) = n.
 Proof.
-  unfold ids_len. intros W. destruct (z_badtype z); [discriminate|].
-  destruct (z_shape z) as [|m [|m2 r]] eqn:HS; cbn beta iota; [discriminate| |].
-  - destruct m as [|m']; cbn beta iota; intro E; injection E as <-; [reflexivity|cbn [Nat.eqb]; apply W; exact HS].
-  - destruct m; cbn beta iota; [|discriminate]. intro E. injection E as <-. reflexivity.
+  unfold ids_len. intros W.
+  destruct (z_shape z) as [|m r] eqn:HS; cbn beta iota; [discriminate|].
+  destruct m as [|m']; cbn beta iota.
+  - intro E. injection E as <-. reflexivity.
+  - destruct r; [|discriminate]. destruct (z_badtype z); [discriminate|].
+    intro E. injection E as <-. cbn [Nat.eqb]. apply W. exact HS.
 Qed.
 
 Lemma nums_len_data z known n : zarr_wf z -> nums_len z known = Ok n ->
